@@ -2180,7 +2180,7 @@ func (p *Parser) parseStatement() (ast.Statement, error) {
 		// If the next token is LBRACKET, try to parse an l-value chain followed by "=".
 		// On failure (parse error or no "=" after l-value), restore position and fall
 		// through to other statement paths (bare assignment, expression statement).
-		if p.peek(1).Type == LBRACKET {
+		if p.peek(1).Type == LBRACKET && p.indexAssignmentAhead() {
 			savedPos := p.position
 			name := p.current().Literal
 			p.advance() // consume identifier
@@ -3240,6 +3240,40 @@ func (p *Parser) parseLValueExpr(base ast.Expr) (ast.Expr, error) {
 		}
 	}
 	return expr, nil
+}
+
+// indexAssignmentAhead reports whether the tokens after the current identifier form an l-value chain
+// ("[" ... "]" and ".name" groups, brackets balanced) that is followed by "=". It only looks at tokens, so the
+// speculative index-assignment parse (which parses every index expression, including whole blocks inside it) is
+// attempted only where it can succeed; without it each nesting level of `a[async { a[async { ... }] }]` was parsed
+// twice, doubling the work per level.
+func (p *Parser) indexAssignmentAhead() bool {
+	i := p.position + 1
+	for i < len(p.tokens) {
+		switch p.tokens[i].Type {
+		case LBRACKET:
+			depth := 0
+			for ; i < len(p.tokens); i++ {
+				switch p.tokens[i].Type {
+				case LBRACKET, LPAREN, LBRACE:
+					depth++
+				case RBRACKET, RPAREN, RBRACE:
+					depth--
+				}
+				if depth <= 0 {
+					break
+				}
+			}
+			i++
+		case DOT:
+			i += 2
+		case EQUALS:
+			return true
+		default:
+			return false
+		}
+	}
+	return false
 }
 
 // parseArrayIndex parses array indexing: array[index] or array[index][index2]
